@@ -701,3 +701,217 @@ Proof.
     e2e_stream_judge_c12, e2e_stream_judge_c03, stream_part.
   destruct (parse_stream out); reflexivity.
 Qed.
+
+(* ------------------------------------------------------------------------------------------ *)
+(* C08: packet numbers and acknowledgements                                                   *)
+(* ------------------------------------------------------------------------------------------ *)
+
+(* (1) packet numbers of one endpoint and space strictly increase *)
+Lemma incr1_sound : forall ep sp l last, incr1 ep sp last l = true ->
+  forall pre r post, l = pre ++ r :: post -> row_is 0 ep sp r = true ->
+    last < x_a r /\ forall o, In o pre -> row_is 0 ep sp o = true -> x_a o < x_a r.
+Proof.
+  intros ep sp. induction l as [|x t IH]; intros last H pre r post E R.
+  - destruct pre; discriminate.
+  - cbn [incr1] in H. destruct pre as [|p pre]; cbn [app] in E; injection E as E1 E2; subst.
+    + rewrite R in H. rewrite andb_true_iff in H. destruct H as [H _]. apply Z.ltb_lt in H.
+      split; [exact H | intros o []].
+    + destruct (row_is 0 ep sp p) eqn:P.
+      * rewrite andb_true_iff in H. destruct H as [H1 H2]. apply Z.ltb_lt in H1.
+        destruct (IH _ H2 pre r post eq_refl R) as [A B]. split; [lia|].
+        intros o [Ho|Ho] Ro; [subst; exact A | auto].
+      * destruct (IH _ H pre r post eq_refl R) as [A B]. split; [exact A|].
+        intros o [Ho|Ho] Ro; [subst; rewrite P in Ro; discriminate | auto].
+Qed.
+
+Theorem pn_strictly_increase : forall ep sp l pre o mid r post,
+  incr1 ep sp (-1) l = true -> l = pre ++ o :: mid ++ r :: post ->
+  row_is 0 ep sp o = true -> row_is 0 ep sp r = true -> x_a o < x_a r.
+Proof.
+  intros ep sp l pre o mid r post H E Ro Rr.
+  assert (E' : l = (pre ++ o :: mid) ++ r :: post) by (rewrite E, <- app_assoc; reflexivity).
+  destruct (incr1_sound ep sp l (-1) H _ r post E' Rr) as [_ B].
+  apply B; [apply in_or_app; right; left; reflexivity | exact Ro].
+Qed.
+
+(* (2) acknowledged ranges consist of processed packet numbers *)
+Definition InIvs (ivs : list (Z * Z)) (x : Z) : Prop := exists iv, In iv ivs /\ fst iv <= x <= snd iv.
+
+Lemma in_iv_spec : forall x iv, in_iv x iv = true <-> fst iv <= x <= snd iv.
+Proof. intros x iv. unfold in_iv. rewrite andb_true_iff, !Z.leb_le. tauto. Qed.
+
+Lemma add_pn_sound : forall p ivs x, InIvs (add_pn p ivs) x -> x = p \/ InIvs ivs x.
+Proof.
+  intros p. induction ivs as [|[lo hi] t IH]; intros x [iv [Hin Hx]]; cbn [add_pn] in Hin.
+  - destruct Hin as [E|[]]. subst iv. cbn [fst snd] in Hx. left. lia.
+  - destruct ((lo <=? p) && (p <=? hi)) eqn:C1.
+    { right. exists iv. split; assumption. }
+    destruct (Z.eqb_spec p (hi + 1)) as [C2|C2].
+    { destruct Hin as [E|Hin].
+      - subst iv. cbn [fst snd] in Hx. destruct (Z.eq_dec x p); [left; assumption|].
+        right. exists (lo, hi). split; [left; reflexivity | cbn [fst snd]; lia].
+      - right. exists iv. split; [right; exact Hin | exact Hx]. }
+    destruct (Z.eqb_spec p (lo - 1)) as [C3|C3].
+    { destruct Hin as [E|Hin].
+      - subst iv. cbn [fst snd] in Hx. destruct (Z.eq_dec x p); [left; assumption|].
+        right. exists (lo, hi). split; [left; reflexivity | cbn [fst snd]; lia].
+      - right. exists iv. split; [right; exact Hin | exact Hx]. }
+    destruct Hin as [E|Hin].
+    + right. exists iv. split; [left; exact E | exact Hx].
+    + destruct (IH x (ex_intro _ iv (conj Hin Hx))) as [G|[iv' [G1 G2]]]; [left; exact G|].
+      right. exists iv'. split; [right; exact G1 | exact G2].
+Qed.
+
+Lemma covers_sound : forall fuel ivs lo hi, covers ivs lo hi fuel = true ->
+  forall x, lo <= x <= hi -> InIvs ivs x.
+Proof.
+  induction fuel as [|f IH]; intros ivs lo hi H x Hx; cbn [covers] in H; [discriminate|].
+  destruct (find (in_iv lo) ivs) as [iv|] eqn:F; [|discriminate].
+  apply find_some in F. destruct F as [F1 F2]. apply in_iv_spec in F2.
+  destruct (Z.leb_spec hi (snd iv)).
+  - exists iv. split; [exact F1 | lia].
+  - destruct (Z_le_gt_dec x (snd iv)).
+    + exists iv. split; [exact F1 | lia].
+    + apply (IH ivs (snd iv + 1) hi H). lia.
+Qed.
+
+Lemma ack1_sound : forall ep sp l ivs (S : Z -> Prop),
+  (forall x, InIvs ivs x -> S x) -> ack1 ep sp ivs l = true ->
+  forall pre r post, l = pre ++ r :: post -> row_is 2 ep sp r = true ->
+  forall x, x_a r <= x <= x_b r ->
+    S x \/ exists o, In o pre /\ row_is 1 ep sp o = true /\ x_a o = x.
+Proof.
+  intros ep sp. induction l as [|y t IH]; intros ivs S HS H pre r post E R x Hx.
+  - destruct pre; discriminate.
+  - cbn [ack1] in H. destruct pre as [|p pre]; cbn [app] in E; injection E as E1 E2; subst.
+    + destruct (row_is 1 ep sp r) eqn:P1.
+      { unfold row_is in P1, R. repeat rewrite andb_true_iff in P1, R.
+        destruct P1 as [[P1 _] _]. destruct R as [[R1 _] _]. apply Z.eqb_eq in P1, R1. lia. }
+      rewrite R in H. repeat rewrite andb_true_iff in H. destruct H as [[_ H] _].
+      left. apply HS. eapply covers_sound; eauto.
+    + destruct (row_is 1 ep sp p) eqn:P1.
+      * destruct (IH (add_pn (x_a p) ivs) (fun y => S y \/ y = x_a p)) with (pre := pre) (r := r) (post := post) (x := x)
+          as [[G|G]|[o [G1 [G2 G3]]]]; auto.
+        { intros y Hy. destruct (add_pn_sound _ _ _ Hy) as [A|A]; [right; exact A | left; auto]. }
+        { right. exists p. split; [left; reflexivity | split; [exact P1 | symmetry; exact G]]. }
+        { right. exists o. split; [right; exact G1 | split; assumption]. }
+      * assert (H' : ack1 ep sp ivs (pre ++ r :: post) = true).
+        { destruct (row_is 2 ep sp p); [repeat rewrite andb_true_iff in H; tauto | exact H]. }
+        destruct (IH ivs S HS H' pre r post eq_refl R x Hx) as [G|[o [G1 [G2 G3]]]]; [left; exact G|].
+        right. exists o. split; [right; exact G1 | split; assumption].
+Qed.
+
+Theorem ack_ranges_processed : forall ep sp l pre r post x,
+  ack1 ep sp [] l = true -> l = pre ++ r :: post -> row_is 2 ep sp r = true ->
+  x_a r <= x <= x_b r ->
+  exists o, In o pre /\ row_is 1 ep sp o = true /\ x_a o = x.
+Proof.
+  intros ep sp l pre r post x H E R Hx.
+  destruct (ack1_sound ep sp l [] (fun _ => False)) with (pre := pre) (r := r) (post := post) (x := x)
+    as [G|G]; auto.
+  - intros y [iv [[] _]].
+  - contradiction.
+Qed.
+
+(* (3) timeliness.  An obligation (packet number, deadline) is discharged by a log suffix when,
+   before any event later than the deadline, the endpoint sends an ACK range covering the packet
+   number or its connection ends; or the recording stops before the deadline. *)
+Fixpoint Discharged (ep endt : Z) (p : Z * Z) (l : list xrow) : Prop :=
+  match l with
+  | [] => endt <= snd p
+  | r :: t => x_t r <= snd p /\
+              (closes ep r = true \/
+               (row_is 2 ep 2 r = true /\ x_a r <= fst p <= x_b r) \/
+               Discharged ep endt p t)
+  end.
+
+(* the obligations the monitor creates, each with the log suffix that has to discharge it: an
+   ack-eliciting application-space packet that is the largest processed so far, while the
+   connection has not ended *)
+Fixpoint obligations (ep d largest : Z) (l : list xrow) : list ((Z * Z) * list xrow) :=
+  match l with
+  | [] => []
+  | r :: t =>
+      if closes ep r then []
+      else if row_is 2 ep 2 r then obligations ep d largest t
+      else if row_is 1 ep 2 r
+      then (if (x_b r =? 1) && (largest <? x_a r) then [((x_a r, x_t r + d), t)] else []) ++
+           obligations ep d (Z.max largest (x_a r)) t
+      else obligations ep d largest t
+  end.
+
+Lemma forallb_filter_weaken {A} (p q : A -> bool) : forall l, forallb p l = true -> forallb p (filter q l) = true.
+Proof.
+  induction l as [|x t IH]; intros H; cbn [filter]; [reflexivity|]. cbn [forallb] in H.
+  rewrite andb_true_iff in H. destruct H. destruct (q x); cbn [forallb]; [rewrite andb_true_iff|]; auto.
+Qed.
+
+Lemma ackt_sound : forall ep d endt l pend largest,
+  ackt ep d endt pend largest l = true ->
+  (forall p, In p pend -> Discharged ep endt p l) /\
+  (forall ob, In ob (obligations ep d largest l) -> Discharged ep endt (fst ob) (snd ob)).
+Proof.
+  intros ep d endt. induction l as [|r t IH]; intros pend largest H; cbn [ackt] in H.
+  - split; [|intros ob []]. intros p Hp. cbn [Discharged]. rewrite forallb_forall in H.
+    specialize (H p Hp). apply Z.leb_le in H. exact H.
+  - rewrite andb_true_iff in H. destruct H as [H0 H]. rewrite forallb_forall in H0.
+    cbn [obligations]. destruct (closes ep r) eqn:C.
+    { split; [|intros ob []]. intros p Hp. cbn [Discharged]. split; [apply Z.leb_le; auto | left; exact C]. }
+    destruct (row_is 2 ep 2 r) eqn:A.
+    { destruct (IH _ _ H) as [I1 I2]. split; [|exact I2].
+      intros p Hp. cbn [Discharged]. split; [apply Z.leb_le; auto|]. right.
+      destruct ((x_a r <=? fst p) && (fst p <=? x_b r)) eqn:K.
+      - left. rewrite andb_true_iff, !Z.leb_le in K. rewrite A. split; [reflexivity | exact K].
+      - right. apply I1. apply filter_In. split; [exact Hp | rewrite K; reflexivity]. }
+    destruct (row_is 1 ep 2 r) eqn:P.
+    { destruct (IH _ _ H) as [I1 I2]. split.
+      - intros p Hp. cbn [Discharged]. split; [apply Z.leb_le; auto|]. right. right.
+        apply I1. destruct ((x_b r =? 1) && (largest <? x_a r)); [right; exact Hp | exact Hp].
+      - intros ob Hob. apply in_app_or in Hob. destruct Hob as [Hob|Hob]; [|auto].
+        destruct ((x_b r =? 1) && (largest <? x_a r)); [|destruct Hob].
+        destruct Hob as [Hob|[]]. subst ob. cbn [fst snd]. apply I1. left. reflexivity. }
+    destruct (IH _ _ H) as [I1 I2]. split; [|exact I2].
+    intros p Hp. cbn [Discharged]. split; [apply Z.leb_le; auto|]. right. right. auto.
+Qed.
+
+(* what "discharged" means without the recursion *)
+Theorem discharged_meaning : forall ep endt p l, Discharged ep endt p l ->
+  (exists pre r post, l = pre ++ r :: post /\
+     (forall o, In o pre -> x_t o <= snd p) /\ x_t r <= snd p /\
+     (closes ep r = true \/ (row_is 2 ep 2 r = true /\ x_a r <= fst p <= x_b r))) \/
+  ((forall o, In o l -> x_t o <= snd p) /\ endt <= snd p).
+Proof.
+  intros ep endt p. induction l as [|r t IH]; intros H; cbn [Discharged] in H.
+  - right. split; [intros o [] | exact H].
+  - destruct H as [T [C|[C|C]]].
+    + left. exists [], r, t. split; [reflexivity|]. split; [intros o []|]. split; [exact T | left; exact C].
+    + left. exists [], r, t. split; [reflexivity|]. split; [intros o []|]. split; [exact T | right; exact C].
+    + destruct (IH C) as [[pre [r' [post [E [A [B D]]]]]]|[A B]].
+      * left. exists (r :: pre), r', post. split; [rewrite E; reflexivity|].
+        split; [intros o [Ho|Ho]; [subst; exact T | auto]|]. split; assumption.
+      * right. split; [intros o [Ho|Ho]; [subst; exact T | auto] | exact B].
+Qed.
+
+Theorem pn_monitor_parts : forall endt mad l, pn_monitor endt mad l = true ->
+  (forall ep sp, (ep = 0 \/ ep = 1) -> (sp = 0 \/ sp = 1 \/ sp = 2) ->
+     incr1 ep sp (-1) l = true /\ ack1 ep sp [] l = true) /\
+  ackt 0 (mad + ACK_SLACK_US) endt [] (-1) l = true /\
+  ackt 1 (mad + ACK_SLACK_US) endt [] (-1) l = true.
+Proof.
+  intros endt mad l H. unfold pn_monitor in H. repeat rewrite andb_true_iff in H.
+  destruct H as [[[_ A] B] C]. split; [|split; assumption].
+  intros ep sp Hep Hsp. rewrite forallb_forall in A.
+  assert (Iep : In ep [0; 1]) by (cbn [In]; destruct Hep; subst; auto).
+  specialize (A ep Iep). rewrite forallb_forall in A.
+  assert (Isp : In sp [0; 1; 2]) by (cbn [In]; destruct Hsp as [|[|]]; subst; auto).
+  specialize (A sp Isp). rewrite andb_true_iff in A. exact A.
+Qed.
+
+Theorem pn_judge_parts : forall case out, e2e_pn_judge case out = true ->
+  exists rws, take_rows 8 (nz out 6) (skipn 7 out) = Some (rws, []) /\
+    pn_monitor (nz out 3) (nz out 4) (map mk_xrow rws) = true.
+Proof.
+  intros case out H. unfold e2e_pn_judge in H. destruct (negb _); [discriminate|].
+  destruct (take_rows 8 (nz out 6) (skipn 7 out)) as [[rws rest]|]; [|discriminate].
+  destruct rest; [|discriminate]. exists rws. auto.
+Qed.
